@@ -117,6 +117,18 @@ theorem loop_fuel_split (so mi : Bool) (b : Nat) : ∀ (a : Nat) (m : Machine) (
           | exit c w1 => simp only [he] at h; exact absurd h (by simp)
           | panic s => simp only [he] at h; exact absurd h (by simp)
 
+theorem toRef_fuel {r : RunResult} {m : Machine} {w : World} (h : toRef r = .fuel m w) :
+    r = .fuel m w := by
+  cases r <;> simp_all [toRef]
+
+/-- The reference run is the iteration of its instruction cycle: cutting it after `a` cycles and
+continuing for `b` is running `a + b` cycles. -/
+theorem ref_run_fuel_split (so mi : Bool) (a b : Nat) (m : Machine) (w : World) (m' : Machine)
+    (w' : World) (h : Ref.run so mi a m w = .fuel m' w') :
+    Ref.run so mi (a + b) m w = Ref.run so mi b m' w' := by
+  rw [← run_eq_ref] at h
+  rw [← run_eq_ref, ← run_eq_ref, loop_fuel_split so mi b a m w m' w' (toRef_fuel h)]
+
 /-- Non-vacuity: a machine whose PC is xFFFF stops at once, with any budget. -/
 example (so mi : Bool) (m : Machine) (w : World) (h : m.pc = 0xFFFF#16) (n : Nat) :
     Stopped (loop so mi (n + 1) m w) := by
